@@ -833,6 +833,22 @@ class XsdPatternFacets(XsdFacet, MutableSequence[ElementType]):
         return get_xsd_annotation(self._elements[i], self.schema, self)
 
 
+class XsdPatternsChain:
+    """
+    The pattern facets of more derivation steps over a union type, that are
+    applied by the union after a member type has matched. A value has to match
+    a pattern of each step.
+    """
+    __slots__ = ('steps',)
+
+    def __init__(self, *steps: Union[XsdPatternFacets, 'XsdPatternsChain']) -> None:
+        self.steps = steps
+
+    def __call__(self, value: Any) -> None:
+        for patterns in self.steps:
+            patterns(value)
+
+
 class XsdAssertionFacet(XsdFacet):
     """
     XSD 1.1 *assertion* facet for simpleType definitions.
